@@ -9,11 +9,19 @@ Parts
   navigate        bases x every reference path of <= N segments over {. .. '' g h} x {path-absolute,
                   path-relative, empty path} x {no query, ?y, ?} x {no fragment, #s}
   navigate-names  the same with segments that merely look like dot segments ('...', '.g', 'g..')
+  navigate-delims queries and fragments that contain the characters they may legally contain ('/', '?', ':', '@') up
+                  to whole URLs ('n=http://x/y', '#x://h/p', '?//h/p'): text that merely looks like a scheme, an
+                  authority or a component delimiter inside a query / fragment must not be taken for one
+  navigate-encoded bases and references whose segments carry percent-encoded delimiters ('x%2Fy', '%2F', '%2F..',
+                  'q%3Fr', 'h%23s') or reserved characters that are legal inside a segment ('x:', 'a:b@c', 'p;k=v',
+                  hence also 'g/x://h' - a "://" inside a path): a segment is one segment whatever it decodes to
+  navigate-long   directed (not exhaustive): references and base paths of 15 .. 1025 repeated units
   absolute        references that carry their own scheme and host (replace the base entirely)
   chain           base.navigate(r1).navigate(r2) against the reference applied step by step
   normalize       URL.normalize() applied twice equals applied once
 
-Per resolution: rendered result == expected text; no '.'/'..' segment in the result; the base object is
+Per resolution: rendered result == expected text (for references of <= object_maxseg segments and whenever an escape is
+involved also the fully quoted rendering, to_text(full_quote=True)); no '.'/'..' segment in the result; the base object is
 unchanged (text, every public attribute, ``base == pristine copy``) also after the returned URL is mutated;
 passing the reference as a URL object gives the same result as passing that object's text.
 For references of <= object_maxseg segments the reference is also handed in as a URL object in every internal
@@ -186,6 +194,25 @@ BASES = (
     'http://[::1]', 'http://[::1]/b/c', 'http://[::1]:8080/b/c', 'http://127.0.0.1:8080/b/',
     'x://h', 'x://h/p/q', 'git+ssh://u@h/p/q/',
 )
+# Segments that decode to text containing delimiters / that contain reserved characters legal in a segment.  Only
+# spellings that URL renders back unchanged are used (upper-case hex, only delimiters that must stay encoded): the
+# statement is about resolution, not about percent-encoding normalization.
+ENC_SEGMENTS = ('.', '..', '', 'g', 'x%2Fy', '%2F', '%2F..', 'x:')
+RESERVED_SEGMENTS = ('..', 'g', 'q%3Fr', 'h%23s', 'a:b@c', 'p;k=v')
+CHAIN_ENC_SEGMENTS = ('..', '', 'g', 'x%2Fy', '%2F')
+ENC_BASES = (
+    # the first `encoded_deep_bases` of these get the longer references
+    'http://a/b%2Fc/d', 'http://a/b%2Fc/d/', 'http://a/x/b%2Fc/d?q=1#f', 'http://a/%2F/d', 'http://a/b%2F/',
+    'http://a/b%2F..%2Fc/d', 'http://a/b/..%2F/d',                   # decode to text with dot segments inside
+    'http://u:pw@a:8080/r%2Fs/t/', 'http://a/b:c/d@e/f;p=1',
+    'http://a/b%2Fc', 'http://a/b/%2F', 'http://a/%2Fb/c', 'http://a/%2F%2F/%2F', 'http://a/b%2F%2Fc/d',
+    'http://a/b%2F./c', 'x://h/p%2Fq/r',
+    'http://a/b%3Fc/d%23e/f', 'http://a/b/http://x/y', 'http://a/\u00e9/d',
+    'http://a/b/c?x=a%26b&y=%3D', 'http://a/b/c?n=http://x/y#x://h',
+)
+CHAIN_ENC_BASES = ('http://a/b%2Fc/d', 'http://a', 'http://u:pw@a:8080/r%2Fs/t/?q#f')
+DELIM_QUERIES = (None, 'y/z?w', 'n=http://x/y', '//h/p', 'a:b@c')
+DELIM_FRAGMENTS = (None, 's?t/u', '?', '/', 'x://h/p', '//h', 'a:b@c')
 NAME_BASES = ('http://a', 'http://a/b/c', 'http://a/b/c/', 'http://a/.g/...', 'http://a/b/g../', 'x://h/p')
 CHAIN_BASES = ('http://a', 'http://a/b/c/d;p?q', 'https://host/a/', 'http://a/b//c?q#f',
                'http://u:pw@a:8080/b/c', 'x://h/p/q', 'http://a/', 'http://a/b/c/..', 'http://a:80/b',
@@ -262,6 +289,10 @@ def _tags(base, r):
     bsegs = base[2].split('/')
     if '.' in bsegs or '..' in bsegs:
         tags.append('base_has_dot_segments')
+    if '%' in base[2]:
+        tags.append('base_path_has_encoded_char')
+    if '%' in r[2]:
+        tags.append('ref_path_has_encoded_char')
     if r[3] == '':
         tags.append('ref_query_empty')
     rsegs = r[2].split('/')
@@ -321,6 +352,16 @@ def dest_in_state(URL, ref, state):
     return URL(URL(ref))
 
 
+def _mutate_result(res):
+    """What a caller may do with the URL it got back."""
+    res.query_params.add('zz', 'zz')
+    res.fragment = 'zz'
+    if isinstance(res.path_parts, list):
+        res.path_parts.append('zz')
+    else:
+        res.path_parts = tuple(res.path_parts) + ('zz',)
+
+
 def eval_object_states(URL, bi, ref, obs, out, stats=None):
     """The reference / the base handed in as URL objects in other internal states.  An object stands for the
     reference that it renders to (only when that text parses back to an equal object and is a reference shape
@@ -369,7 +410,8 @@ def eval_object_states(URL, bi, ref, obs, out, stats=None):
         tags = _tags(bi.split, r) + ['base_normalized']
         exp_t = expected_target(bi.split, r)
         try:
-            o = base.navigate(ref).to_text()
+            res = base.navigate(ref)
+            o = res.to_text()
         except Exception as e:
             out.append(('C07|fn:navigate|raised(normalized-base)', recompose(canon(exp_t)),
                         'raised %s' % type(e).__name__, tags))
@@ -382,6 +424,15 @@ def eval_object_states(URL, bi, ref, obs, out, stats=None):
             after = 'raised %s' % type(e).__name__
         if after != bi.snap:
             out.append(('C07|fn:navigate|base-modified', bi.snap, after, tags))
+            return
+        # a normalized base keeps its segments in a list: the result must not share it (nor the query)
+        try:
+            _mutate_result(res)
+            after = snapshot(base)
+            if after != bi.snap:
+                out.append(('C07|fn:navigate|result-shares-mutable-state-with-base', bi.snap, after, tags))
+        except Exception as e:
+            out.append(('C07|fn:navigate|result-not-a-usable-URL', None, 'raised %s' % type(e).__name__, tags))
 
 
 def eval_navigate(URL, bi, ref, objects=False, stats=None):
@@ -398,7 +449,17 @@ def eval_navigate(URL, bi, ref, objects=False, stats=None):
     except Exception as e:
         out.append(('C07|fn:navigate|raised', recompose(canon(exp_t)), 'raised %s' % type(e).__name__, tags))
         return out
-    compare('navigate', exp_t, obs, shape, out, tags)
+    ok = compare('navigate', exp_t, obs, shape, out, tags)
+    if ok and (objects or '%' in obs) and obs.isascii():
+        # the target is an ASCII URI made of characters that are legal where they stand (escapes included), so
+        # its fully quoted rendering is the same text; a result that holds e.g. still-encoded segments renders to
+        # the target only by accident of the lenient default quoting
+        try:
+            fq = res.to_text(full_quote=True)
+            if fq != obs:
+                out.append(('C07|fn:navigate|fully-quoted-rendering-differs(%s)' % shape, obs, fq, tags))
+        except Exception as e:
+            out.append(('C07|fn:navigate|raised(full_quote)', obs, 'raised %s' % type(e).__name__, tags))
     rsegs = [str(p) for p in res.path_parts]
     if '.' in rsegs or '..' in rsegs:
         out.append(('C07|fn:navigate|dot-segment-in-result', 'no "." or ".." in path_parts', rsegs, tags))
@@ -432,8 +493,7 @@ def eval_navigate(URL, bi, ref, objects=False, stats=None):
     # the returned URL is a new object: using it must not reach back into the base
     if not modified:
         try:
-            res.query_params.add('zz', 'zz')
-            res.fragment = 'zz'
+            _mutate_result(res)
             after = snapshot(base)
             if after != bi.snap:
                 out.append(('C07|fn:navigate|result-shares-mutable-state-with-base', bi.snap, after, tags))
@@ -572,20 +632,56 @@ def shard_navigate(arg, t, g):
     URL = _url()
     bi = _base_info(g, URL, arg['part'], arg['base'])
     stats = {}
+    relative_only = arg.get('relative_only', False)
+    qf = arg.get('qf') or [(q, f) for q in arg['queries'] for f in arg['fragments']]
     try:
         for path in ref_paths(arg['kind'], arg['alphabet'], arg['maxseg']):
             nontrivial = path_is_nontrivial(path)
             objects = n_segments(path) <= arg.get('object_maxseg', -1)
-            for q in arg['queries']:
-                for f in arg['fragments']:
-                    ref = make_ref(path, q, f)
-                    case = {'part': arg['part'], 'base': bi.text, 'refs': [ref]}
-                    if objects:
-                        case['objects'] = True
-                    t.count(nontrivial=nontrivial, sample=case if len(t.samples) < 3 else None)
-                    _record(t, case, g.call(case, eval_navigate, URL, bi, ref, objects, stats))
+            for q, f in qf:
+                ref = make_ref(path, q, f)
+                if relative_only and split_uri(ref)[:2] != (None, None):
+                    t.add('skipped_not_a_relative_reference')
+                    continue                   # e.g. 'x:/g': a scheme without a host, outside the statement
+                case = {'part': arg['part'], 'base': bi.text, 'refs': [ref]}
+                if objects:
+                    case['objects'] = True
+                t.count(nontrivial=nontrivial, sample=case if len(t.samples) < 3 else None)
+                _record(t, case, g.call(case, eval_navigate, URL, bi, ref, objects, stats))
     finally:
         _flush(t, stats)
+
+
+LONG_SIZES = (15, 16, 17, 63, 64, 65, 255, 256, 257, 1023, 1024, 1025)
+LONG_OBJECTS_MAX = 300      # URL-object states of the reference / base only up to this many units
+LONG_BASES = ('http://a', 'http://a/b/c/d;p?q', 'http://u:pw@a:8080/b%2Fc/d/?q#f')
+
+
+def long_refs(n):
+    """Directed long references of about n (.. 2n) segments: climbing, descending, both, no-ops, empty segments."""
+    return ['../' * n + 'g', './' * n + 'g', 'g/' * n, 'g/' * n + '../' * n + 'h', 'g/../' * n + 'h',
+            '/' + 'g/' * n + '../' * (n - 1), 'g' + '/' * n, '/g/' + '../' * n + '/' * n + 'h', '/' + 'g/./h/..//' * n,
+            '../' * n + '?y', 'g/' * n + '..' + '#s']
+
+
+def long_base(n):
+    return 'http://a/' + 'b/' * n + 'c?q'
+
+
+def shard_long(arg, t, g):
+    URL = _url()
+    n = arg['n']
+    objects = n <= LONG_OBJECTS_MAX
+    for base in LONG_BASES + (long_base(n),):
+        bi = _base_info(g, URL, 'navigate-long', base)
+        refs = long_refs(n) + (['../' * (n // 2) + 'g', '../' * (n + 1) + 'g', '', '.'] if base == long_base(n) else [])
+        for ref in refs:
+            case = {'part': 'navigate-long', 'base': bi.text, 'refs': [ref]}
+            if objects:
+                case['objects'] = True
+            t.count(nontrivial=True, sample={'part': 'navigate-long', 'n': n, 'base': base[:40], 'ref': ref[:40]}
+                    if len(t.samples) < 2 else None)
+            _record(t, case, g.call(case, eval_navigate, URL, bi, ref, objects, None))
 
 
 def shard_absolute(arg, t, g):
@@ -610,10 +706,10 @@ def shard_absolute(arg, t, g):
         _flush(t, stats)
 
 
-def chain_refs(maxseg, queries, fragments):
+def chain_refs(maxseg, queries, fragments, alphabet=SEGMENTS):
     out = []
     for kind in ('abs', 'rel'):
-        for path in ref_paths(kind, SEGMENTS, maxseg):
+        for path in ref_paths(kind, alphabet, maxseg):
             for q in queries:
                 for f in fragments:
                     out.append((make_ref(path, q, f), path_is_nontrivial(path)))
@@ -689,10 +785,12 @@ def shard_normalize(arg, t, g):
 def bounds(tier):
     if tier == 'quick':
         return {'navigate_maxseg': 4, 'names_maxseg': 3, 'absolute_maxseg': 2, 'chain_maxseg': 2,
-                'object_maxseg': 2, 'absolute_object_maxseg': 1,
+                'object_maxseg': 2, 'absolute_object_maxseg': 1, 'encoded_maxseg': 3, 'reserved_maxseg': 2,
+                'encoded_deep_bases': 9,
                 'chain_bases': 4, 'chain_second': 'path x {"", "?y#s"}', 'normalize_maxseg': 4}
     return {'navigate_maxseg': 5, 'names_maxseg': 4, 'absolute_maxseg': 3, 'chain_maxseg': 2,
-            'object_maxseg': 3, 'absolute_object_maxseg': 2,
+            'object_maxseg': 3, 'absolute_object_maxseg': 2, 'encoded_maxseg': 4, 'reserved_maxseg': 3,
+            'encoded_deep_bases': len(ENC_BASES),
             'chain_bases': len(CHAIN_BASES), 'chain_second': 'path x {"", "?y"} x {"", "#s"}', 'normalize_maxseg': 6}
 
 
@@ -713,12 +811,31 @@ def run(ctx):
             for base in NAME_BASES for kind in ('abs', 'rel')]
     inputs.run_shards(ctx, _guarded(shard_navigate), args, part='navigate-names', rule=rule)
 
-    # queries and fragments that contain the delimiters they may legally contain ("/" and "?") - they must not be taken
-    # for component delimiters - on references of at most one segment
+    # queries and fragments that contain the characters they may legally contain ("/", "?", ":", "@"), up to whole
+    # URLs ("n=http://x/y", "#x://h/p") - they must not be taken for component delimiters, a scheme or an authority -
+    # on references of at most one segment
+    delim_qf = [(q, f) for q in DELIM_QUERIES[:2] for f in DELIM_FRAGMENTS[:4]]
+    delim_qf += [(q, None) for q in DELIM_QUERIES[2:]] + [(None, f) for f in DELIM_FRAGMENTS[4:]]
+    delim_qf += [(DELIM_QUERIES[2], DELIM_FRAGMENTS[4])]
     args = [{'part': 'navigate-delims', 'base': base, 'kind': kind, 'alphabet': SEGMENTS, 'maxseg': 1,
-             'queries': (None, 'y/z?w'), 'fragments': (None, 's?t/u', '?', '/'), 'object_maxseg': 1}
+             'qf': delim_qf, 'object_maxseg': 1}
             for base in BASES for kind in ('abs', 'rel')]
     inputs.run_shards(ctx, _guarded(shard_navigate), args, part='navigate-delims', rule=rule)
+
+    # segments with percent-encoded delimiters / reserved characters, in the base and in the reference
+    args = [{'part': 'navigate-encoded', 'base': base, 'kind': kind, 'alphabet': alphabet, 'maxseg': maxseg,
+             'queries': qs, 'fragments': (None,), 'object_maxseg': b['object_maxseg'], 'relative_only': True}
+            for i, base in enumerate(ENC_BASES) for kind in ('abs', 'rel')
+            for alphabet, maxseg, qs in ((ENC_SEGMENTS, b['encoded_maxseg'] if i < b['encoded_deep_bases'] else 2, (None,)),
+                                         (RESERVED_SEGMENTS, b['reserved_maxseg'], (None, 'n=http://x/y')))]
+    args += [{'part': 'navigate-encoded', 'base': base, 'kind': kind, 'alphabet': ENC_SEGMENTS, 'maxseg': 2,
+              'queries': (None,), 'fragments': (None,), 'object_maxseg': 1, 'relative_only': True}
+             for base in BASES for kind in ('abs', 'rel')]
+    inputs.run_shards(ctx, _guarded(shard_navigate), args, part='navigate-encoded', rule=rule)
+
+    # directed, not exhaustive: references / base paths of many segments (sizes around powers of two)
+    args = [{'part': 'navigate-long', 'n': n} for n in LONG_SIZES]
+    inputs.run_shards(ctx, _guarded(shard_long), args, part='navigate-long', rule=rule)
 
     args = [{'part': 'absolute', 'base': base, 'maxseg': b['absolute_maxseg'],
              'object_maxseg': b['absolute_object_maxseg']} for base in ABS_BASES]
@@ -734,11 +851,18 @@ def run(ctx):
     for base in CHAIN_BASES[:b['chain_bases']]:
         for i in range(4):                         # four slices of the first references per base
             args.append({'part': 'chain', 'base': base, 'refs1': refs1[i::4], 'refs2': refs2})
+    enc_refs = chain_refs(2, (None,), (None,), CHAIN_ENC_SEGMENTS)
+    enc_refs2 = enc_refs + [(r + '?y#s', nt) for r, nt in enc_refs]
+    for base in CHAIN_ENC_BASES:
+        for i in range(4):
+            args.append({'part': 'chain', 'base': base, 'refs1': enc_refs[i::4], 'refs2': enc_refs2})
     inputs.run_shards(ctx, _guarded(shard_chain), args, part='chain', rule=rule)
 
     args = [{'part': 'normalize', 'prefix': p, 'alphabet': SEGMENTS, 'maxseg': b['normalize_maxseg']}
             for p in NORMALIZE_PREFIXES]
     args += [{'part': 'normalize', 'prefix': p, 'alphabet': NAME_SEGMENTS, 'maxseg': b['names_maxseg']}
+             for p in ('', 'http://a')]
+    args += [{'part': 'normalize', 'prefix': p, 'alphabet': ENC_SEGMENTS, 'maxseg': b['encoded_maxseg']}
              for p in ('', 'http://a')]
     inputs.run_shards(ctx, _guarded(shard_normalize), args, part='normalize', rule=rule)
 
@@ -753,10 +877,28 @@ def run(ctx):
                          name_bases=list(NAME_BASES), chain_bases=list(CHAIN_BASES[:b['chain_bases']]),
                          absolute_bases=list(ABS_BASES), absolute_schemes=list(ABS_SCHEMES),
                          absolute_authorities=list(ABS_AUTHORITIES), normalize_prefixes=list(NORMALIZE_PREFIXES),
-                         chain_first_refs=len(refs1), chain_second_refs=len(refs2))
+                         chain_first_refs=len(refs1), chain_second_refs=len(refs2),
+                         encoded_segments=list(ENC_SEGMENTS), reserved_segments=list(RESERVED_SEGMENTS),
+                         encoded_bases=list(ENC_BASES), delim_queries=list(DELIM_QUERIES[1:]),
+                         delim_fragments=list(DELIM_FRAGMENTS[1:]), chain_encoded_segments=list(CHAIN_ENC_SEGMENTS),
+                         chain_encoded_bases=list(CHAIN_ENC_BASES), chain_encoded_first_refs=len(enc_refs),
+                         chain_encoded_second_refs=len(enc_refs2), long_sizes=list(LONG_SIZES),
+                         long_bases=list(LONG_BASES) + ['http://a/<n times b/>c?q'])
+    cov['directed_parts'] = {'navigate-long': 'not exhaustive in any sense beyond its own list: %d reference patterns '
+                             'of n..5n segments per base, n in long_sizes' % len(long_refs(1))}
     ctx.assumptions += [
         'base URLs are absolute and have a host (authority); hosts and schemes are lower-case, DNS-valid names or '
-        'IP literals; no percent-encoded characters in paths',
+        'IP literals',
+        'percent-encoding: only segments that URL renders back unchanged are used (upper-case hex escapes of the '
+        'delimiters "/", "?", "#" and of "&", "=" in queries; reserved characters ":", "@", ";", "=" that are legal '
+        'in a segment; one non-ASCII letter); an escape is opaque text for the RFC reference.  Escapes that URL '
+        're-spells when rendering (%20, %41, %2E, %25, lower-case hex) and encoded dots are not explored: the '
+        'statement says nothing about percent-encoding normalization',
+        'to_text(full_quote=True) of the result is demanded to equal the plain rendering whenever that is ASCII: every '
+        'character of the explored alphabets is legal where it stands, so full quoting has nothing to change',
+        'in the navigate-encoded part only relative references are resolved (a first segment such as "x:" would make '
+        'the text a reference with a scheme but no host, which the statement does not cover; counted as '
+        'skipped_not_a_relative_reference)',
         'references have no authority of their own unless they also carry a scheme (the statement covers '
         'path-absolute, path-relative, query-only, fragment-only, empty and scheme+host references)',
         'expected text = RFC 3986 5.2 target with dot segments removed, compared modulo "empty path under an '
